@@ -443,7 +443,7 @@ def r4_conversions(ctx, F, table, floor=True):
         for fld, want in sorted(spec["fields"].items()):
             have = got.get(fld)
             txt = vf.render(strip(have), b, short=True) if have is not None else "<not set>"
-            ok = txt == want
+            ok = vf.same_text(txt, want)
             ctx.check("R4-conv", "%s.%s" % (name, fld), ok,
                       "%s: field %s is fed from `%s`, the ABI conversion requires `%s`" % (name, fld, txt, want),
                       loc=b.loc(), detail=txt)
